@@ -657,7 +657,12 @@ impl W {
             // only the cases that expect an answer, or a listener that was up before, are worth the wait
             if allowed.iter().any(|a| a.is_some()) || verb == "DeactivateListener" {
                 self.n_udp += 1;
-                let got = udp_ping(base + 3, if allowed.contains(&None) { 150 } else { 1500 }, self.n_udp as u8);
+                let mut got = udp_ping(base + 3, if allowed.contains(&None) { 150 } else { 1500 }, self.n_udp as u8);
+                if got.is_none() && !allowed.contains(&None) {
+                    // datagrams may be lost on a loaded machine: one more flow, from another address
+                    std::thread::sleep(Duration::from_millis(200));
+                    got = udp_ping(base + 3, 1500, 100 + self.n_udp as u8);
+                }
                 if !allowed.contains(&got) {
                     out.viol("udp-mismatch", &format!("after {verb} {k}: a datagram to the UDP listener came back as {:?}, the main process' view allows {:?}", got, allowed));
                 }
